@@ -17,7 +17,8 @@ RULE = ('every execution = fresh real daemon + simulated kernel; all placements 
 ASSUMPTIONS = ['reloadconfig-induced stops are exercised under C12; on_demand socket events only in the thorough tier']
 
 OPS = ['stop', 'stop-all', 'restart', 'rm', 'quit']
-TAIL_OPS = ['check', 'incr', 'decr', 'set-np', 'set-opt', 'kill', 'signal', 'die-none']
+TAIL_OPS = ['check', 'incr', 'decr', 'set-np', 'set-opt', 'set-cmd', 'set-env', 'set-max_age', 'set-wd', 'kill', 'signal',
+            'die-none']
 
 
 def scenarios(tier):
@@ -321,6 +322,14 @@ def _run_tail(scn, ch, res):
                 r = world.request('set', name='a', options={'numprocesses': 3})
             elif op == 'set-opt':
                 r = world.request('set', name='a', options={'graceful_timeout': 0.5})
+            elif op == 'set-cmd':
+                r = world.request('set', name='a', options={'cmd': 'sleep 61'})
+            elif op == 'set-env':
+                r = world.request('set', name='a', options={'env': {'A': 'b'}})
+            elif op == 'set-max_age':
+                r = world.request('set', name='a', options={'max_age': 100})
+            elif op == 'set-wd':
+                r = world.request('set', name='a', options={'working_dir': '/'})
             elif op == 'kill':
                 r = world.request('kill', name='a')
             elif op == 'signal':
